@@ -191,7 +191,48 @@ def project(root, km: KeyMap, tk: Tokens) -> Dict[str, Any]:
     visit: List[List[str]] = []
     root.visititems(lambda n, o: visit.append([km.abs_key(s) for s in n.strip("/").split("/")]))
     nodes.sort(key=lambda n: n["p"])
-    return {"view": nodes, "visit": sorted(visit)}
+    return {"view": nodes, "visit": sorted(visit), "memb": membership(root, km, nodes, through_datasets=not hasattr(root, "metador"))}
+
+
+def membership(root, km: KeyMap, nodes: List[Dict[str, Any]], through_datasets: bool = True) -> List[str]:
+    """`in` / get() / [] with absolute, multi-segment relative and single-segment paths must agree with the listed tree,
+    for every listed node and for every path over the abstract keys (up to depth 3) that is not listed."""
+    import itertools
+    bad: List[str] = []
+    present = {tuple(n["p"]) for n in nodes}
+    kinds = {tuple(n["p"]): n["k"] for n in nodes}
+    cand = set(present)
+    for d in (1, 2):
+        cand |= set(itertools.product(ABSTRACT_KEYS, repeat=d))
+    cand |= {p_ + (k_,) for p_ in present if len(p_) == 2 for k_ in ABSTRACT_KEYS}
+    cand.discard(())
+    # IH5 lookups are slow: a deterministic sample of the candidates per observation (many observations per run)
+    order = sorted(cand)
+    random.Random(len(nodes) * 7919 + sum(len(x) for x in present)).shuffle(order)
+    for p in order[:6]:
+        want = p in present
+        if not through_datasets and any(kinds.get(p[:j]) == "d" for j in range(1, len(p))):
+            # MetadorGroup.__contains__ hands the rest of such a path to the dataset object ("x" in dataset: TypeError
+            # for scalars, element comparison for arrays) on every driver alike; recorded as an observation in DESIGN,
+            # no listed property speaks about it
+            continue
+        ap = km.path(list(p))
+        forms = [("abs", root, ap)] + ([("rel", root, ap.lstrip("/"))] if len(p) >= 2 else [])
+        if len(p) >= 2 and kinds.get(p[:1]) == "g":
+            try:
+                forms.append(("from child", root[km.path([p[0]])], "/".join(km.k.get(s_, s_) for s_ in p[1:])))
+            except Exception:
+                pass
+        for how, base, path in forms:
+            try:
+                got_in = path in base
+                got_get = base.get(path) is not None
+            except Exception as ex:
+                bad.append(f"{how} {path!r}: membership test raised {type(ex).__name__}")
+                continue
+            if got_in != want or got_get != want:
+                bad.append(f"{how} {path!r}: in={got_in} get={got_get} but the listing says {'present' if want else 'absent'}")
+    return bad[:6]
 
 
 def raw_container(path: Path, km: KeyMap, tk: Tokens) -> List[Dict[str, Any]]:
